@@ -5,6 +5,7 @@ package main
 
 import (
 	"fmt"
+	"go/token"
 	"go/types"
 	"strings"
 
@@ -17,6 +18,9 @@ const (
 	recPrefix = "record:RecordKey=0x01"
 	recCtr    = "record:IntraTxCounterKey=0x02"
 )
+
+// c19IsInc is set while runC19 runs (shared between its rule blocks).
+var c19IsInc func(ssa.Value) bool
 
 // bufDerives: v (possibly a byte buffer filled through copy/PutUintXX/append)
 // derives from a value satisfying pred.
@@ -195,8 +199,30 @@ func runC19(cx *Ctx, r *Report) {
 			return out
 		}
 		defer func() { bufParamArgs = nil }()
-		okCtr := bufDerives(key, isCounterRead, 0, map[ssa.Value]bool{})
-		okRec := bufDerives(key, isRecordParam, 0, map[ssa.Value]bool{})
+		okCtr := cx.newSlicer(func(v ssa.Value, _ []*ssa.Call) bool { return isCounterRead(v) }, false).derives(key, nil, -1)
+		okRec := cx.newSlicer(func(v ssa.Value, _ []*ssa.Call) bool { return isRecordParam(v) }, false).derives(key, nil, -1)
+		// "the value is (counter read) + 1", wherever the addition is spelled (inline, in a
+		// helper, in a method of a small struct that carries the counter)
+		isInc := func(arg ssa.Value) bool {
+			incPred := func(v ssa.Value, stack []*ssa.Call) bool {
+				bo, ok := v.(*ssa.BinOp)
+				if !ok || bo.Op != token.ADD {
+					return false
+				}
+				x := bo.X
+				c, isC := bo.Y.(*ssa.Const)
+				if !isC {
+					c, isC = bo.X.(*ssa.Const)
+					x = bo.Y
+				}
+				if !isC || c.Value == nil || c.Int64() != 1 {
+					return false
+				}
+				return cx.newSlicer(func(w ssa.Value, _ []*ssa.Call) bool { return isCounterRead(w) }, true).derives(x, stack, -1)
+			}
+			return cx.newSlicer(incPred, true).derives(arg, nil, -1)
+		}
+		c19IsInc = isInc
 		r.check(okCtr, "key-from-counter", "0x01", cx.P.Pos(p.Site.Pos()), "the record key derives from the value read under counter key 0x02", "the record key does not depend on the counter stored under 0x02: two identical records in one transaction would overwrite each other")
 		r.check(okRec, "key-from-record", "0x01", cx.P.Pos(p.Site.Pos()), "the record key derives from the record contents", "the record key does not depend on the record contents")
 		// counter+1 written after the Set on every path: in the function holding the Set,
@@ -234,10 +260,8 @@ func runC19(cx *Ctx, r *Report) {
 					// argument is counter+1
 					inc := false
 					for _, a := range c.Common().Args {
-						if bo, ok := a.(*ssa.BinOp); ok && bo.Op.String() == "+" {
-							if cst, ok := bo.Y.(*ssa.Const); ok && cst.Int64() == 1 && isCounterRead(bo.X) {
-								inc = true
-							}
+						if bt, isB := a.Type().Underlying().(*types.Basic); isB && bt.Info()&types.IsInteger != 0 && isInc(a) {
+							inc = true
 						}
 					}
 					if inc {
@@ -312,10 +336,56 @@ func runC19(cx *Ctx, r *Report) {
 			return false
 		}
 		genesisFns := cx.Reachable(cx.entryFns(cx.entriesOfModule("record", "genesis")), nil)
+		_ = readsCtr
+		// setters: functions that store one of their own integer parameters under 0x02, and
+		// wrappers that forward one of their parameters to a setter
+		setters := map[*ssa.Function]bool{}
+		for _, f := range cx.P.AllFuncs {
+			if f.Blocks != nil && isConsensusCode(cx, f) && writesCtr(f) {
+				setters[f] = true
+			}
+		}
+		forwardsOwnParam := func(f *ssa.Function, arg ssa.Value) bool {
+			return cx.newSlicer(func(v ssa.Value, st []*ssa.Call) bool {
+				p, ok := v.(*ssa.Parameter)
+				return ok && p.Parent() == f && len(st) == 0
+			}, true).derives(arg, nil, -1)
+		}
+		intArgs := func(c *ssa.Call) []ssa.Value {
+			var out []ssa.Value
+			for _, a := range c.Common().Args {
+				if bt, isB := a.Type().Underlying().(*types.Basic); isB && bt.Info()&types.IsInteger != 0 {
+					out = append(out, a)
+				}
+			}
+			return out
+		}
+		for changed := true; changed; {
+			changed = false
+			for _, f := range cx.P.AllFuncs {
+				if f.Blocks == nil || !isConsensusCode(cx, f) || setters[f] {
+					continue
+				}
+				for _, b := range f.Blocks {
+					for _, ins := range b.Instrs {
+						c, ok := ins.(*ssa.Call)
+						if !ok || c.Common().StaticCallee() == nil || !setters[c.Common().StaticCallee()] {
+							continue
+						}
+						for _, a := range intArgs(c) {
+							if forwardsOwnParam(f, a) {
+								setters[f] = true
+								changed = true
+							}
+						}
+					}
+				}
+			}
+		}
 		nW := 0
 		for _, f := range cx.P.AllFuncs {
-			if f.Blocks == nil || !isConsensusCode(cx, f) || writesCtr(f) {
-				continue // the setter itself stores its argument
+			if f.Blocks == nil || !isConsensusCode(cx, f) || setters[f] {
+				continue // a setter stores what it is given; its callers are judged
 			}
 			for _, b := range f.Blocks {
 				for _, ins := range b.Instrs {
@@ -325,7 +395,7 @@ func runC19(cx *Ctx, r *Report) {
 					}
 					hit := false
 					for _, e := range cx.calleesOf(c) {
-						if writesCtr(e.Callee) {
+						if setters[e.Callee] {
 							hit = true
 						}
 					}
@@ -337,9 +407,9 @@ func runC19(cx *Ctx, r *Report) {
 					}
 					nW++
 					inc := false
-					for _, a := range c.Common().Args {
-						if bo, ok := a.(*ssa.BinOp); ok && bo.Op.String() == "+" {
-							if cst, ok := bo.Y.(*ssa.Const); ok && cst.Value != nil && cst.Int64() == 1 && readsCtr(bo.X) {
+					if c19IsInc != nil {
+						for _, a := range intArgs(c) {
+							if c19IsInc(a) {
 								inc = true
 							}
 						}
